@@ -17,6 +17,9 @@ R03.6 (= C06 R06.2) the frame number's UVARI forms are exact.   R03.7 the source
 R03.8 (= C11 R11.3) every chunk-filling load_chunk reads the rows of the data set itself, so the declared cast is the
       one numpy applies on assignment into the chunk field - for every source kind alike.
 Not decided: bit-exact preservation through numpy's cast / copy, memory layouts inside numpy, what a reader decodes.
+R03.10 (value flow) the declared cast is applied when the rows are written, not when the data are handed over: what
+      add_channel keeps of the caller's `data` does not depend on the cast declared at that moment (the cast can be
+      changed or removed through the channel's public setter before the file is written).
 R03.9 (shared, = C02 R02.1/2/4/5 + C10 R10.1-3) the transport below the records: segments partition each body in order with
       correct bracketing and padding, the output buffer and the byte writer hand on exactly those bytes.
 """
@@ -51,6 +54,7 @@ def run(chk):
     chk.guard(r03_6_frame_number_encoding, chk)
     chk.guard(r03_7_fresh_wrapper, chk)
     chk.guard(r03_8_one_conversion, chk)
+    chk.guard(r03_10_cast_at_write, chk)
     from ._layout import transport_integrity
     chk.guard(transport_integrity, chk, "R03.9")
 
@@ -67,6 +71,31 @@ def r03_8_one_conversion(chk):
             o.rule = "R03.8"
             chk.obs.append(o)
     chk.consulted_functions |= tmp.consulted_functions
+
+
+def r03_10_cast_at_write(chk):
+    """add_channel keeps the caller's data as they are: no kept value that is derived from `data` also depends on the
+    cast declared in the same call (parameter or channel attribute).  The cast belongs to the write (R03.8): the channel's
+    cast_dtype setter is public, so a conversion frozen at add time is the wrong one when the cast changes later."""
+    from ..terms import SELF, contains, pp
+    lf = chk.ix.get_class("LogicalFile")
+    add = lf.lookup("add_channel")
+    if add is None:
+        raise AnalysisError("LogicalFile.add_channel not found")
+    chk.consult(add)
+    su = chk.terms.inline(add, 2, stop=lambda g: g.module is not add.module)
+    data = ("param", "data")
+
+    def is_cast(x):
+        return (x == ("param", "cast_dtype")) or (isinstance(x, tuple) and len(x) == 3 and x[0] == "attr" and
+                                                  isinstance(x[2], str) and x[2].lstrip("_") == "cast_dtype")
+    kept = [e for e in su.effects if e.kind in ("store_sub", "store_attr") and contains(e.base, SELF) and
+            e.value is not None and contains(e.value, data)]
+    chk.floor("stores of the channel data in add_channel", len(kept), 1)
+    for e in kept:
+        chk.require(not contains(e.value, is_cast), "R03.10", f"data-kept-unconverted:{pp(e.base)[:40]}",
+                    f"add_channel keeps `{pp(e.value)[:90]}`: the data are converted with the cast declared at that "
+                    f"moment, so a cast changed or removed before write() is not the one the file shows", e.where)
 
 
 def _numbering_generator_form(chk, mfd, it_):
